@@ -21,3 +21,78 @@ package pagination
 //@   loop 0 decreases maxLimit - i
 //@   loop 1 invariant 0 <= commonLen && commonLen <= len(pageURL) && commonLen <= len(linkHref)
 //@   loop 1 decreases commonLen
+
+// ---- PageNumberFinder (C01: nil/index safety). finderOK / finderWeak are defined in /verif/specs/pager.ghost ----
+
+//@ func NewPageNumberFinder(wc, timingInfo, logger)
+//@   ensures result != nil && fresh(result) && implies(wc != nil, finderOK(result))
+
+//@ func (*PageNumberFinder).addLinkIfValid(link, pageURL)
+//@   requires finderOK(pnf) && link != nil && pageURL != nil
+//@   ensures pnf.wordCounter != nil && pnf.adjacentNumberGroups != nil
+//@   ensures groupsLive(pnf.adjacentNumberGroups)
+
+//@ func (*PageNumberFinder).addNonLinkTextIfValid(text)
+//@   requires finderOK(pnf)
+//@   ensures pnf.wordCounter != nil && pnf.adjacentNumberGroups != nil
+//@   ensures groupsLive(pnf.adjacentNumberGroups)
+//@   loop 0 invariant finderOK(pnf)
+
+//@ func (*PageNumberFinder).findAndAddClosestValidLeafNodes(start, checkStart, backward, pageURL)
+//@   requires pnf != nil && pnf.wordCounter != nil && pnf.adjacentNumberGroups != nil
+//@   requires groupsLive(pnf.adjacentNumberGroups)
+//@   requires start != nil
+//@   requires pageURL != nil
+//@   ensures pnf.wordCounter != nil && pnf.adjacentNumberGroups != nil
+//@   ensures groupsLive(pnf.adjacentNumberGroups)
+//@   ensures pnf.numForwardLinksProcessed >= old(pnf.numForwardLinksProcessed)
+
+//@ func (*PageNumberFinder).FindOutlink(root, pageURL)
+//@   requires finderWeak(pnf) && root != nil && pageURL != nil
+//@   ensures pnf.wordCounter != nil && pnf.adjacentNumberGroups != nil
+//@   ensures groupsOK(pnf.adjacentNumberGroups)
+//@   ensures paramInfoOK(result)
+//@   loop 0 invariant pnf != nil && pnf.wordCounter != nil && pnf.adjacentNumberGroups != nil
+//@   loop 0 invariant groupsOK(pnf.adjacentNumberGroups)
+//@   loop 0 invariant 0 <= idx
+//@   loop 0 invariant forall(k, 0 <= k && k < len(allLinks), allLinks[k] != nil)
+
+//@ func (*PageNumberFinder).FindPagination(root, pageURL)
+//@   requires finderWeak(pnf) && root != nil && pageURL != nil
+//@   loop 0 invariant -1 <= i && i < nPageInfo && nPageInfo == len(paramInfo.AllPageInfo) && paramInfoOK(paramInfo)
+//@   loop 0 decreases i + 1
+//@   loop 1 invariant nextPageIdx == -1 && paramInfoOK(paramInfo)
+//@   loop 2 invariant -2 <= i && i < len(paramInfo.AllPageInfo) && paramInfoOK(paramInfo)
+//@   loop 2 decreases i + 2
+
+// ---- PrevNextFinder (C01: nil/index/nil-map safety). prevNextOK is defined in /verif/specs/pager.ghost ----
+
+//@ func NewPrevNextFinder(logger)
+//@   ensures result != nil && fresh(result) && prevNextOK(result)
+
+//@ func (*PrevNextFinder).appendDebugStrForLink(link, message)
+//@   requires prevNextOK(pnf)
+//@   ensures prevNextOK(pnf)
+
+//@ func (*PrevNextFinder).printLog(args)
+//@   requires pnf != nil
+
+//@ func (*PrevNextFinder).printDebugInfo(findNext, pagingHref, allLinks)
+//@   requires pnf != nil && forall(k, 0 <= k && k < len(allLinks), allLinks[k] != nil)
+//@   loop 0 invariant pnf != nil && pnf.logger != nil && forall(k, 0 <= k && k < len(allLinks), allLinks[k] != nil)
+
+//@ func (*PrevNextFinder).FindOutlink(root, pageURL, findNext)
+//@   requires prevNextOK(pnf) && root != nil && pageURL != nil
+//@   ensures prevNextOK(pnf)
+//@   loop 0 invariant prevNextOK(pnf) && bannedURLs != nil && forall(k, 0 <= k && k < len(allLinks), allLinks[k] != nil)
+//@   loop 0 invariant freshslice(candidates) && forall(c, 0 <= c && c < len(candidates), 0 <= candidates[c].linkIndex && candidates[c].linkIndex < len(allLinks))
+//@   loop 1 invariant prevNextOK(pnf) && bannedURLs != nil && forall(k, 0 <= k && k < len(allLinks), allLinks[k] != nil)
+//@   loop 1 invariant freshslice(candidates) && forall(c, 0 <= c && c < len(candidates), 0 <= candidates[c].linkIndex && candidates[c].linkIndex < len(allLinks))
+//@   loop 1 invariant link != nil && 0 <= i && i < len(allLinks)
+//@   loop 2 invariant prevNextOK(pnf) && bannedURLs != nil && forall(k, 0 <= k && k < len(allLinks), allLinks[k] != nil)
+//@   loop 2 invariant forall(c, 0 <= c && c < len(candidates), 0 <= candidates[c].linkIndex && candidates[c].linkIndex < len(allLinks))
+//@   loop 2 invariant topPage == nil || (0 <= topPage.linkIndex && topPage.linkIndex < len(allLinks))
+
+//@ func (*PrevNextFinder).FindPagination(root, pageURL)
+//@   requires prevNextOK(pnf) && root != nil && pageURL != nil
+//@   ensures prevNextOK(pnf)
